@@ -312,6 +312,7 @@ func (d *c06Data) announce(w *World, p *Peer) {
 		p.Await(ctr)
 		d.compare(w, p, tag+"-repeated")
 		w.Probe("c06-repeated-announcement")
+		w.Fault("net.dup(in-order repeat)")
 	}
 }
 
